@@ -4,6 +4,7 @@ mod archs;
 mod bv;
 mod explore;
 mod gen;
+mod native;
 mod lifter;
 mod x86gen;
 mod refil;
@@ -73,6 +74,13 @@ fn main() {
     }
     if args[1] == "selftest" {
         bv::selftest();
+        match native::selftest() {
+            Ok(()) => println!("native trampoline ok"),
+            Err(e) => {
+                println!("native trampoline FAILED: {}", e);
+                std::process::exit(2)
+            }
+        }
         println!("selftest ok");
         return;
     }
